@@ -33,7 +33,7 @@ Consume ==
                              /\ E.mh = E.sh                     \* the message is the decoding of this datagram
          [] E.a = "Finish" -> /\ \E h \in DOMAIN spawned : spawned[h].id = E.id /\ HandlerFinish(h)
                               /\ E.mh = E.sh                    \* ... and still is after later reads
-         [] E.a = "Close" -> CloseCall
+         [] E.a = "Close" -> IF closed THEN CloseAgain ELSE CloseCall
          [] E.a = "Return" -> /\ E.lp \in Active
                               /\ IF pc[E.lp] = "blocked" THEN ReadClosed(E.lp) /\ E.ret = "closed"
                                  ELSE IF pc[E.lp] = "failed" THEN ReadErrReturn(E.lp) /\ E.ret = "readerr"
